@@ -55,6 +55,14 @@ Obl(e) ==
          <<"quiet", e.panic = "">>,
          <<"op-ok", e.ok>>,
          <<"signature-identity", e.ok => SigBindOK(e.sig, SigTerm(e))>> >>
+    [] e.op = "BlindRef" -> <<
+         <<"quiet", e.panic = "">>,
+         <<"op-ok", e.ok>>,
+         <<"matches-reference", e.ok => e.ref_ok>>,
+         <<"context-matters", e.ok => e.last_byte_matters>> >>
+    [] e.op = "BlindBad" -> <<
+         <<"quiet", e.panic = "">>,
+         <<"invalid-key-refused", ~e.decodable => e.refused>> >>
     [] e.op = "Verify" -> <<
          <<"quiet", e.panic = "">>,
          <<"known-input", Known(e.key) /\ SigKnown(e.sig)>>,
